@@ -30,6 +30,9 @@ pub struct Restored {
     pub vt: Option<u64>,
     pub ms: BTreeMap<i32, u64>,
     pub synced: [bool; 5],
+    /// Previous value reported by the first on_set of v1 / v2 and the first on_update of m1[k0] after the restart
+    /// (None: the handler did not run).
+    pub first_prev: [Option<Option<u64>>; 3],
 }
 
 fn key_m1(s: &str) -> Option<i32> {
@@ -47,6 +50,7 @@ pub fn expected_from(state: &State) -> Restored {
         vt: Some(0),
         ms: state.map_text("ms").iter().filter_map(|(k, v)| Some((key_m1(k)?, *v))).collect(),
         synced: [true; 5],
+        first_prev: [None; 3],
     }
 }
 
@@ -75,6 +79,10 @@ pub fn restart_and_observe(state: &State, rng: &mut Rng) -> Result<Restored, Str
     script.push(Step::Settle);
     script.push(Step::Command(0, "cmd".to_string(), "@cmd{id:1,acts:{@dump}}".to_string()));
     script.push(Step::Settle);
+    // The first change of each kind of item after the restart: the lifecycle handlers must be told the
+    // restored state as the previous one (C06: "with the true previous value / entry").
+    script.push(Step::Command(0, "cmd".to_string(), "@cmd{id:2,acts:{@setv{lane:0,v:990000000001},@setv{lane:1,v:990000000002},@upd{lane:0,k:0,v:990000000003}}}".to_string()));
+    script.push(Step::Settle);
     let opts = Options { probe: false, ..Default::default() };
     let obs = run::run_case(&cfg, &script, &opts, rng, Some(store), vec![]);
     if !obs.stuck.is_empty() {
@@ -86,7 +94,9 @@ pub fn restart_and_observe(state: &State, rng: &mut Rng) -> Result<Restored, Str
     let mut r = Restored::default();
     let s = obs.sessions.first().ok_or("no session")?;
     let log = s.log.lock();
-    for f in &log.frames {
+    // what the syncing remote was shown before the first change after the restart
+    let change_at = s.reqs.iter().find(|r| r.body.contains("id:2,")).map(|r| r.t0).unwrap_or(u64::MAX);
+    for f in log.frames.iter().filter(|f| f.ticket < change_at) {
         let idx = [V1, V2, M1, M2, M3].iter().position(|l| *l == f.lane);
         match (&f.kind, idx) {
             (FrameKind::Synced, Some(i)) => r.synced[i] = true,
@@ -116,6 +126,14 @@ pub fn restart_and_observe(state: &State, rng: &mut Rng) -> Result<Restored, Str
             _ => {}
         }
     }
+    r.first_prev = [
+        obs.rec.value_hist[0].iter().find(|x| x.2 == 990000000001).map(|x| x.1),
+        obs.rec.value_hist[1].iter().find(|x| x.2 == 990000000002).map(|x| x.1),
+        obs.rec.map_hist[0].iter().find_map(|(_, e)| match e {
+            crate::agentdef::MapEv::Upd { k: 0, prev, new: 990000000003 } => Some(*prev),
+            _ => None,
+        }),
+    ];
     if let Some((_, vs, vt, ms)) = obs.rec.dumps.last() {
         r.vs = Some(*vs);
         r.vt = Some(*vt);
@@ -371,6 +389,23 @@ pub fn run_case_c05(rng: &mut Rng, out: &mut CaseOut, max_len: usize, all_cuts: 
             Ok(got) => {
                 cut_points += 1;
                 out.events += 1;
+                // C06: what the first handlers after the restart were told was there before must be what a
+                // syncing remote had just been shown (the lane's state right before the change).
+                let shown = [got.v1.or(Some(0)), got.v2.or(Some(0)), got.m1.get(&0).copied()];
+                for (i, item) in ["value-lane", "transient-value-lane", "map-lane"].iter().enumerate() {
+                    match got.first_prev[i] {
+                        None => out.count("first-change-after-restart-not-observed"),
+                        Some(prev) if prev != shown[i] => {
+                            out.violation(
+                                "C06",
+                                format!("restart/first-handler-previous-value/{item}"),
+                                "the first on_set / on_update after a restart was given a previous value that is not the state the lane held (and had just shown to a syncing remote)",
+                                json!({"cut": k, "of": n, "told": prev, "lane_held": shown[i]}),
+                            );
+                        }
+                        Some(_) => out.count("first-change-after-restart-previous-checked"),
+                    }
+                }
                 if let Some(class) = diff_class(&got, &want) {
                     out.violation(
                         "C05",
